@@ -68,6 +68,8 @@ def check(ctx):
     # a memo slot shared by values that differ in something not in its key makes a result depend on what was asked before
     from ..dispatch import check_cache_keys
     check_cache_keys(ctx, rule="R5-cache-key-complete")
+    # ---- R6 the NumPy kernels process the segments in chunks: the statistics must not depend on the chunk size (a processing parameter)
+    _chunk_independence(ctx)
     # ---- R3 analyzer history
     _history(ctx, E)
     # ---- R4 environment defaults precede the first import of the compiled modules
@@ -151,3 +153,32 @@ def _history(ctx, E):
             ctx.violated("R3-call-history", f"{key}[{norm_stmt(sk.node)[:60]}]", f"in-place {sk.kind} on {sk.target} ({sk.detail}) modifies {', '.join(hits)}, which later analyses on the same analyzer read",
                          f"speckit/analysis.py:{getattr(sk.node, 'lineno', 0)}")
         ctx.holds("R3-call-history", key, f"{len(A.sinks)} in-place sites examined, {bad} touch analyzer state", repo.where(key, fn))
+
+
+def _chunk_independence(ctx):
+    from ..kernels import KernelEval, kernel_key, FAMILIES, MODES, OUT, leaf_for_K, has_chunk_param, prepare_env_chunks
+    from ..symalg import compare
+    from ..values import to_x, is_opaque, Mismatch
+    from ..report import HOLDS, VIOLATED, UNKNOWN
+    KE = KernelEval(ctx.repo); n = 0
+    for fam in FAMILIES:
+        for mode in MODES:
+            key = kernel_key(fam, mode, "numpy")
+            if not ctx.repo.has(key) or not has_chunk_param(ctx.repo.get(key)): continue
+            n += 1
+            where = ctx.repo.where(key, ctx.repo.get(key))
+            a, _ = KE.evaluate(fam, mode, "numpy"); b, _ = KE.evaluate(fam, mode, "numpy", chunk=2)
+            la, ua = leaf_for_K(a, 3); lb, ub = leaf_for_K(b, 3)
+            if ua or ub or not isinstance(la, tuple) or not isinstance(lb, tuple) or len(la) != 5 or len(lb) != 5:
+                bad = next((z for z in (la, lb) if isinstance(z, Mismatch)), None)
+                ctx.ob("R6-chunk-size-independent", key, VIOLATED if bad is not None else UNKNOWN, (bad.why if bad is not None else "kernel result not recognised"), where); continue
+            status, detail = HOLDS, "all five statistics have the same normal form for the default chunk size and for chunks of 2"
+            for nm, x, y in zip(OUT, la, lb):
+                if is_opaque(x) or is_opaque(y) or to_x(x) is None or to_x(y) is None:
+                    m_ = next((z for z in (x, y) if isinstance(z, Mismatch)), None)
+                    status, detail = (VIOLATED, m_.why) if m_ is not None else (UNKNOWN, f"{nm} not recognised"); break
+                st_, why = compare(to_x(x), to_x(y), prepare=prepare_env_chunks, seed=ctx.seed)
+                if st_ != HOLDS:
+                    status, detail = st_, f"{nm} changes with the chunk size (default chunk vs chunks of 2, K=5 segments) {why}"; break
+            ctx.ob("R6-chunk-size-independent", key, status, detail, where)
+    ctx.need("chunked NumPy kernels", n, 6)
